@@ -110,7 +110,9 @@ func (p c10) Run(runseed uint64, tier string, acc *Acc) []*core.Violation {
 				core.SrcFault{K: k, Kind: "full", Flavor: fl()},
 				core.SrcFault{K: k, Kind: "early_eof"},
 				core.SrcFault{K: k, Kind: "err0", Sticky: true, Flavor: fl()},
-				core.SrcFault{K: k, Kind: "early_eof", Sticky: true})
+				core.SrcFault{K: k, Kind: "early_eof", Sticky: true},
+				// an outage that ends: 2..5 adjacent calls fail, then the source is fine again
+				core.SrcFault{K: k, Kind: "err0", Burst: r.Range(2, 5), Flavor: fl()})
 		}
 		for i := range faults {
 			c := &core.Case{Prop: "C10", Seed: runseed, W: f.W, SourceKind: kind, SrcFault: &faults[i]}
@@ -128,6 +130,9 @@ func (p c10) Run(runseed uint64, tier string, acc *Acc) []*core.Violation {
 				fk := faults[i].Kind
 				if faults[i].Sticky {
 					fk += "-sticky"
+				}
+				if faults[i].Burst > 1 {
+					fk += "-burst"
 				}
 				acc.Inc("fired/kind/" + fk)
 				if faults[i].Flavor != "" {
@@ -181,7 +186,7 @@ func (p c10) check(c *core.Case, f *fileWL, base *core.ReadResult, baseCalls int
 	mk := func(sig, detail string) (*core.Violation, *core.Source, *core.ReadResult) {
 		ft := c.SrcFault
 		return &core.Violation{Prop: "C10", Sig: "C10/" + sig + "/" + phase,
-			Detail: fmt.Sprintf("%s [source call %d (%s) failed with %s sticky=%v during %s; source=%s; file %s, %d bytes]", detail, src.Stats.FirstFired, src.Stats.FiredOp, ft.Kind, ft.Sticky, src.FiredAPI, kindOr(c.SourceKind), f.W.HistoryString(), len(f.Data)), Case: c}, src, rr
+			Detail: fmt.Sprintf("%s [source call %d (%s) failed with %s sticky=%v burst=%d during %s; source=%s; file %s, %d bytes]", detail, src.Stats.FirstFired, src.Stats.FiredOp, ft.Kind, ft.Sticky, ft.Burst, src.FiredAPI, kindOr(c.SourceKind), f.W.HistoryString(), len(f.Data)), Case: c}, src, rr
 	}
 	switch {
 	case rr.Panic != "":
@@ -235,6 +240,13 @@ func (p c10) Shrink(c *core.Case) []*core.Case {
 		n := *c
 		g := ft
 		g.Sticky = false
+		n.SrcFault = &g
+		out = append(out, &n)
+	}
+	if ft.Burst > 1 {
+		n := *c
+		g := ft
+		g.Burst--
 		n.SrcFault = &g
 		out = append(out, &n)
 	}
